@@ -385,6 +385,8 @@ def check(tier: str) -> Result:
             bad = [k for k in keys if k not in params]
             res.add("C18.R4", site, "jumanji.__init__", f"kwargs keys of {idv!r} are constructor parameters", not bad,
                     f"keys {keys}" if not bad else f"{bad} are not parameters of {cls.name}.__init__ {params}")
+    from . import wiring
+    n_cs = wiring.class_state_writes(res, tree, "C18.R5", lambda ci: ci.module.name.startswith("jumanji.environments.") and not ci.module.name.endswith(".types") or ci.module.name in ("jumanji.wrappers", "jumanji.specs"))
     res.analysed = {"register_calls": len(calls), "registry_write_sites": len(fn_writes), "modules_scanned_for_writes": len(tree.modules)}
     res.assumptions = ["Python's `re` implements the parsed pattern; dict.copy() returns a new dict",
                        "ids are read as canonical decimal (leading zeros are canonicalised by register)"]
